@@ -28,8 +28,8 @@ RULE = ('Enumerated: every multiset of the seven legal eligibility row classes o
 ASSUMPTIONS = ['in the enumerated part the admitted set equals the assignable geos; the "dropped" cases add n_geos_max / share / budget constraints and count over the observed geos_within_constraints',
                'geo-ratio bound evaluated in exact rational arithmetic of the float tolerance']
 EXHAUSTIVE = {'quick': True, 'thorough': True}
-MINIMA = {'quick': {'settings': 4000, 'listings': 1200, 'search_bound_checks': 20, 'settings_with_dropped_geos': 100, 'large_settings': 100, 'distinct_nontrivial': 1500},
-          'thorough': {'settings': 20000, 'listings': 6000, 'search_bound_checks': 100, 'settings_with_dropped_geos': 700, 'large_settings': 1000, 'distinct_nontrivial': 8000}}
+MINIMA = {'quick': {'listings_interleaved_with_sibling': 100, 'settings': 4000, 'listings': 1200, 'search_bound_checks': 20, 'settings_with_dropped_geos': 100, 'large_settings': 100, 'distinct_nontrivial': 1500},
+          'thorough': {'listings_interleaved_with_sibling': 700, 'settings': 20000, 'listings': 6000, 'search_bound_checks': 100, 'settings_with_dropped_geos': 700, 'large_settings': 1000, 'distinct_nontrivial': 8000}}
 MAXG = {'quick': 3, 'thorough': 4}
 N_RANDOM = {'quick': 96, 'thorough': 640}
 N_SEARCH = {'quick': 32, 'thorough': 160}
@@ -81,13 +81,16 @@ def make_case(r, g, classes):
   return case
 
 
-def listing(mm):
+def listing(mm, sibling=None):
   pairs = []
   handed_out = []
   for n in mm.treatment_group_size_range():
     for T in mm.treatment_group_generator(n):
       Tc = set(T)
       handed_out.append(T)
+      if sibling is not None:
+        # the caller works with two search objects on one data object in turn: the other one is queried in between
+        util.call(lambda: (sibling.geo_assignments, sibling.count_max_designs()))
       for C in mm.control_group_generator(set(Tc)):
         pairs.append((frozenset(Tc), frozenset(C)))
         handed_out.append(C)
@@ -97,7 +100,7 @@ def listing(mm):
   return pairs
 
 
-def check_setting(case, truth, tr, cr, tol, do_listing, counters, violations, fps, extra_kw=None):
+def check_setting(case, truth, tr, cr, tol, do_listing, counters, violations, fps, extra_kw=None, with_sibling=False):
   kw = {'n_test': 3, 'iroas': 1.0}
   kw.update(extra_kw or {})
   if tr is not None:
@@ -141,7 +144,14 @@ def check_setting(case, truth, tr, cr, tol, do_listing, counters, violations, fp
     violations.append({'clause': 'count-vs-oracle', 'mech': 'count-mismatch',
                        'detail': '%s: count_max_designs()=%r, enumeration of assignments=%d' % (label, cnt.value, want)})
   if do_listing:
-    lst = util.call(listing, mm)
+    sibling = None
+    if with_sibling:
+      smod, pmod = bootstrap.mm('tbrmatchedmarkets'), bootstrap.mm('tbrmmdesignparameters')
+      kw_sib = {k: v for k, v in kw.items() if k not in (extra_kw or {})}
+      sb = util.call(lambda: smod.TBRMatchedMarkets(data, pmod.TBRMMDesignParameters(**kw_sib)))
+      sibling = sb.value if sb.ok else None
+      counters['listings_interleaved_with_sibling'] += sibling is not None
+    lst = util.call(listing, mm, sibling)
     counters['listings'] += 1
     if not lst.ok:
       mech = 'listing-raises:' + lst.exc_type
@@ -243,7 +253,7 @@ def run_dropped(spec, r, g):
       extra['budget_range'] = (0.0, float(imp[r.randrange(0, len(imp))]) * r.choice([0.999, 1.001]))
     tr = None if r.random() < 0.5 else (1, r.randrange(1, G))
     tol = r.choice(TOLS)
-    check_setting(case, truth, tr, None, tol, j % 2 == 0, counters, violations, fps, extra_kw=extra)
+    check_setting(case, truth, tr, None, tol, j % 2 == 0, counters, violations, fps, extra_kw=extra, with_sibling=(j % 4 == 0))
   return {'nontrivial': False, 'nontrivial_fps': sorted(fps), 'fp': 'dropped-%d' % spec['idx'],
           'classes': ['dropped-%d' % G], 'counters': dict(counters), 'violations': violations[:12],
           'sample': {'kind': 'class vector with geo-level constraints', 'classes': classes},
